@@ -106,6 +106,8 @@ def gen_scenarios(spec, rng, n):
                            and f.containing_oneof is None), None)
                 if fd is not None and rng.random() < 0.6:
                     big = "x" * (4 * 1024 * 1024 + 17)
+                    o["server"] = [dict(o["server"][-1], lat=0.0)]     # one attempt, whatever happens to the big reply:
+                    o["call"] = {"retry": "none", "timeout": None}       # a retried 4 MiB reply would only bloat the history
                     o["server"][-1]["reply"][fd.name] = big if fd.type == fd.TYPE_STRING else {"__b": big.encode().hex()}
                     o["big_reply"] = True
         if client == "async" and len(sc["actors"]) > 1 and rng.random() < 0.2:
